@@ -50,6 +50,13 @@ def templates(tier):
     T.append(("arrnested", [If([(CV("f"), [If([(C("eq", V("x"), K(1)), [ASet("a0", K(5))])], [ASet("a1", K(6))])])])]))
     T.append(("matif", [If([(CV("f"), [ASet("m01", K(9))])], [ASet("m10", Add(AGet("m11"), K(1)))])]))
     T.append(("matwhile", [While(C("lt", V("x"), K(2)), 2, [ASet("m00", Add(AGet("m00"), K(1))), Asg("x", Add(V("x"), K(1)))])]))
+    # variables of DIFFERENT numeric types merged by a branch: a boolean / integer variable receives a fixed-point value in one arm
+    # (and the other way round); values are compared as numbers (everything scaled by 2^resolution)
+    # (x: integer, y: boolean, z: fixed point)
+    T.append(("mixedb", [If([(CV("f"), [Asg("y", V("z"))])])]))
+    T.append(("mixedn", [If([(CV("f"), [Asg("x", V("z"))])], [Asg("x", V("y"))])]))
+    T.append(("mixedq", [If([(CV("f"), [Asg("z", V("y"))])])]))
+    T.append(("mixedw", [While(CV("f"), 1, [Asg("y", V("z")), Asg("f", K(0))])]))
     # value-dependent operations in branches that may be dead: x is halved only when it is even (y = x mod 2 is an input);
     # in the branch that is NOT taken the division is inexact and the comparison operands may be out of range
     even = C("eq", V("y"), K(0))
@@ -89,6 +96,10 @@ def inputs_for(name, tier):
     if name.startswith(("arr", "mat")):
         for x, y, z, f in itertools.product([0, 1, 2], [0, 2], [0, 1, 2], fs):
             yield {"x": x, "y": y, "z": z, "f": f}
+        return
+    if name.startswith("mixed"):
+        for f, b in itertools.product(fs, (0, 1)):
+            yield {"f": f, "y": b, "z": 5, "x": 3}
         return
     if name.startswith("div"):
         xs = [v for v in xs if v >= 0]
@@ -131,7 +142,7 @@ def mechanism_part(run, tier):
         if e["out"] == "ok":
             for n, leaf in zip(("x", "y", "z"), e["res"]):
                 final[n] = -99 if leaf["k"] == "none" else leaf["v"]
-        pairs.append({"id": t["id"], "model": b, "impl": {"raised": e["out"] != "ok", "exc": e["exc"], "final": final}})
+        pairs.append({"id": t["id"], "model": b, "impl": {"raised": e["out"] != "ok", "exc": e["exc"], "final": final, "probes": e.get("probes", [])}})
     run.evaluations += len(pairs)
     run.traces += len(pairs)
     run.notes.append("%d closed event sequences from Branching.tla replayed through the block API" % len(pairs))
@@ -172,12 +183,17 @@ def cf_programs(tier, select=None):
             continue
         name = "%s.%d" % (name, ti)
         for k, inp in enumerate(inputs_for(name, tier)):
-            if not name.startswith(("elif", "nested", "if", "seq", "div", "arr", "mat")) and inp["f"] == 1 and name != "iffor":
+            if not name.startswith(("elif", "nested", "if", "seq", "div", "arr", "mat", "mixed")) and inp["f"] == 1 and name != "iffor":
                 continue
             for fty in ("int", "bool") if any(t in name for t in ("if", "elif", "nested")) and k % 3 == 0 else ("int",):
                 spec = {n: {"v": v, "ty": "int"} for n, v in inp.items()}
                 spec["f"]["ty"] = fty
                 inp2 = dict(inp)
+                if name.startswith("mixed"):
+                    R = CF_CFG["resolution"]
+                    spec = {"f": {"v": inp["f"], "ty": "bool"}, "y": {"v": inp["y"], "ty": "bool"}, "z": {"v": inp["z"], "ty": "fxp"}, "x": {"v": inp["x"], "ty": "int"}}
+                    # the native twin computes on numbers scaled by 2^R: the fixed-point variable is given by its representation
+                    inp2 = {"f": inp["f"] << R, "y": inp["y"] << R, "z": inp["z"], "x": inp["x"] << R}
                 if name.startswith("arr"):
                     spec["a"] = {"v": [1, 2, 3], "ty": "array"}
                     inp2.update({"a0": 1, "a1": 2, "a2": 3})
@@ -198,6 +214,8 @@ def cf_runs(progs, traces):
         if e["out"] == "ok":
             for n, leaf in zip(names, e["res"]):
                 final[n] = leaf["v"]
+                if p["meta"]["name"].startswith("mixed") and leaf["k"] != "fxp":
+                    final[n] = leaf["v"] << CF_CFG["resolution"]      # numbers compared at the fixed-point scale
         runs.append({"id": p["id"], "prog": p["meta"]["prog"], "inputs": p["meta"]["inputs"], "out": e["out"], "exc": e["exc"], "final": final})
     return runs
 
@@ -266,7 +284,7 @@ def replay(rec):
         if e["out"] == "ok":
             for n, leaf in zip(("x", "y", "z"), e["res"]):
                 final[n] = -99 if leaf["k"] == "none" else leaf["v"]
-        pr = {"id": t["id"], "model": rec["pair"]["model"], "impl": {"raised": e["out"] != "ok", "exc": e["exc"], "final": final}}
+        pr = {"id": t["id"], "model": rec["pair"]["model"], "impl": {"raised": e["out"] != "ok", "exc": e["exc"], "final": final, "probes": e.get("probes", [])}}
         res = common._tlc_on_chunk("BranchConf", "BranchConf.cfg", {"pairs": [pr]}, 2, False, False, "2g")
         run.add_tlc(res, "replay")
         print("replay: %s" % ("violation reproduced (%s)" % res.violated if res.violated else "no violation on the current tree"))
